@@ -10,6 +10,7 @@ import (
 	"strings"
 	"testing"
 
+	"github.com/junegunn/fzf/src/algo"
 	"github.com/junegunn/fzf/src/util"
 	"github.com/junegunn/fzf/src/util/vsched"
 	kit "github.com/junegunn/fzf/src/verifkit"
@@ -198,6 +199,44 @@ func c13S2Loop() string {
 	return "last-request-published"
 }
 
+// S2-slab: each scan partition owns one scratch slab; a superseded scan must not leave workers behind that still use
+// it when the next scan starts. The fuzzy matcher is wrapped so that "inside the matcher with slab S" spans a
+// scheduling point; two threads inside with the same slab at once is the shared-memory race the property excludes.
+func c13S2Slab() string {
+	e := schedNewEnv()
+	inUse := map[*util.Slab]int{}
+	overlap := 0
+	wrapped := func(cs bool, nz bool, fwd bool, in *util.Chars, pat []rune, wp bool, slab *util.Slab) (algo.Result, *[]int) {
+		inUse[slab]++
+		if slab != nil && inUse[slab] > 1 {
+			overlap++
+		}
+		vsched.Yield("in-matcher")
+		res, pos := algo.FuzzyMatchV2(cs, nz, fwd, in, pat, wp, slab)
+		inUse[slab]--
+		return res, pos
+	}
+	pb := func(q []rune) *Pattern {
+		return BuildPattern(e.cache, e.pc, true, wrapped, true, CaseSmart, true, true, false, false, nil, Delimiter{}, revision{}, q, nil)
+	}
+	for i := 0; i < 2*chunkSize; i++ {
+		e.cl.Push([]byte(fmt.Sprintf("a%d", i)))
+	}
+	m := NewMatcher(e.cache, pb, false, false, e.eb, revision{})
+	m.partitions = 1
+	m.slab = make([]*util.Slab, 1)
+	vsched.Go(m.Loop)
+	snap, _, _ := e.cl.Snapshot(0)
+	m.Reset(snap, []rune("a"), true, true, false, revision{})
+	m.Reset(snap, []rune("a0"), true, true, false, revision{})
+	vsched.WaitQuiescent()
+	m.Stop()
+	if overlap > 0 {
+		return fmt.Sprintf("BAD two workers inside the matcher with the same scratch slab (%d times)", overlap)
+	}
+	return "slabs-never-shared"
+}
+
 // S3: partitions race on the shared ChunkCache across consecutive scans of overlapping queries.
 func c13S3() string {
 	e := schedNewEnv()
@@ -336,7 +375,7 @@ func TestVerif_C13_S1(t *testing.T) {
 	c13Run(t, "S1-snapshot-isolation", []schedScenario{{"S1", c13S1(0), schedBadPrefix}, {"S1-tail", c13S1(3), schedBadPrefix}, {"S1-old-snapshots", c13S1Old, schedBadPrefix}}, 2, 3)
 }
 func TestVerif_C13_S2(t *testing.T) {
-	c13Run(t, "S2-cancellation", []schedScenario{{"S2", c13S2, schedBadPrefix}, {"S2-loop", c13S2Loop, schedBadPrefix}}, 2, 3)
+	c13Run(t, "S2-cancellation", []schedScenario{{"S2", c13S2, schedBadPrefix}, {"S2-loop", c13S2Loop, schedBadPrefix}, {"S2-slab", c13S2Slab, schedBadPrefix}}, 2, 3)
 }
 func TestVerif_C13_S3(t *testing.T) {
 	c13Run(t, "S3-cache", []schedScenario{{"S3", c13S3, schedBadPrefix}}, 2, 3)
